@@ -14,6 +14,7 @@
   "rendered by libc, then padded" (the rendering itself is C13's subject and is a parameter here).
 -/
 import StVerif.Lemmas.FmtRun
+import StVerif.Lemmas.UtfString
 
 namespace StVerif.Props.C11
 open StVerif StVerif.Fmt StVerif.Lemmas.Fmt
@@ -65,6 +66,28 @@ theorem format_outcome_eq_spec (fmt : List Nat) (hz : NoNul fmt) (args : List Ar
 theorem format_eq_spec (fmt : List Nat) (hz : NoNul fmt) (args : List Arg) (ha : ArgsOk args) (ev : List Event)
     (h : run (some fmt) args = .ok ev) : render fmt args = .ok (flatten ev) := by
   rw [← format_outcome_eq_spec fmt hz args ha, h]; rfl
+
+/-- **what `ST::format` returns**: the specified rendering passed through the requested UTF-8
+    validation (C02's reference: unchanged, repaired, or `unicode_error`), for renderings of fewer
+    than 2^28 bytes -/
+theorem format_string_eq_spec (m : Mode) (fmt : List Nat) (hz : NoNul fmt) (args : List Arg) (ha : ArgsOk args)
+    (bytes : List Nat) (hr : render fmt args = .ok bytes) (hb : Bytes bytes) (hlen : bytes.length < Generated.hugeBufferSize) :
+    runFormat (.utf8 m) (some fmt) args = Unicode.referenceString m bytes := by
+  have h := format_outcome_eq_spec fmt hz args ha
+  rw [hr] at h
+  unfold runFormat
+  cases hrun : run (some fmt) args with
+  | ok ev =>
+    rw [hrun] at h
+    simp only [Outcome.map] at h
+    injection h with h
+    simp only [Outcome.bind, toStringOf, h]
+    exact StVerif.Lemmas.Utf.stringSet_eq_reference m bytes hb hlen
+  | throw e => rw [hrun] at h; simp [Outcome.map] at h
+  | assertFail w => rw [hrun] at h; simp [Outcome.map] at h
+  | ub w => rw [hrun] at h; simp [Outcome.map] at h
+  | oob => rw [hrun] at h; simp [Outcome.map] at h
+  | stuck => rw [hrun] at h; simp [Outcome.map] at h
 
 /-- one field on one argument: every `format_type` overload emits the specified rendering, for
     every spec the parser can produce -/
